@@ -464,6 +464,7 @@ def run_program(case):
     hits = {}
     classes = []
     expected = []
+    decorators = {}
     calls = 0
     for i in range(n):
         pos = POSITIONAL[deco[i][0]]
@@ -480,7 +481,15 @@ def run_program(case):
         cls = type(f'D{i}', bases, {})
         before = [(c, getattr(c, '__events__', None),
                    dict(getattr(c, '__events__', {}) or {})) for c in classes]
-        ret = desper.event_handler(*pos, **mapping)(cls)
+        # classes decorated with the same arguments share ONE decorator
+        # object (`listens = event_handler('a'); @listens class X; @listens
+        # class Y`): the decorator keeps nothing from one class to the next
+        spec = (deco[i][0], deco[i][1])
+        if spec in decorators:
+            hits['decorator_object_applied_again'] = 1
+        else:
+            decorators[spec] = desper.event_handler(*pos, **mapping)
+        ret = decorators[spec](cls)
         calls += 1
         if ret is not cls:
             raise Violation('decorator_returns_class', f'{case}')
@@ -576,7 +585,8 @@ def run(tier, rep):
                      reentrant_remove=1, reentrant_add=1, reentrant_nested=1,
                      args_and_kwargs=1, extends_inherited=1,
                      overrides_inherited=1, mixin_base=1,
-                     clear_then_register_again=1)
+                     clear_then_register_again=1,
+                     decorator_object_applied_again=1)
     orders()
     for name, (driver, kw) in drivers(tier).items():
         kernel.explore(driver, rep, part=name, params=driver.params(), **kw)
